@@ -74,10 +74,10 @@
 		{{- else }}
 			{{- if isAliased .FieldType }}
 	{{ .VarName }}raw := {{ goTypeRef .Type }}({{ if .FieldPointer }}*{{ end }}res{{ if $.ViewedResult }}.Projected{{ end }}{{ if .FieldName }}.{{ .FieldName }}{{ end }})
-	{{ template "partial_header_conversion" (headerConversionData .Type (printf "%sraw" .VarName) true .VarName) }}
+	{{ template "partial_header_conversion" (headerConversionData .Type .VarName true (printf "%sraw" .VarName)) }}
 			{{- else }}
 	{{ .VarName }}raw := res{{ if $.ViewedResult }}.Projected{{ end }}{{ if .FieldName }}.{{ .FieldName }}{{ end }}
-	{{ template "partial_header_conversion" (headerConversionData .Type (printf "%sraw" .VarName) (not .FieldPointer) .VarName) }}
+	{{ template "partial_header_conversion" (headerConversionData .Type .VarName (not .FieldPointer) (printf "%sraw" .VarName)) }}
 			{{- end }}
 		{{- end }}
 
